@@ -4,6 +4,8 @@ import MoneroModel.Model.SubAddr
 import MoneroModel.Proofs.Address
 import MoneroModel.Proofs.Base58Imp
 import MoneroModel.Proofs.EdwardsLawful
+import MoneroModel.Proofs.SubAddrDistinct
+import MoneroModel.Proofs.GroupRefine
 /-! C11 — "Subaddress keys follow Monero's derivation on both the secret and public side".
 About the model of src/cryptonote/subaddress.rs (`Monero.subScalar`, `subSpendPub`, `subPublicKeys`, `subSpendSec`,
 `subViewSec` in Model/Crypto.lean; `getSubaddress` in Model/SubAddr.lean) and the by-the-book definitions in
@@ -190,6 +192,88 @@ theorem C11_address (L : Lawful ops) (H : Bytes → Bytes) (v : ℕ) (S : P) (i 
     · show ops.enc (subPublicKeys ops v S i j).1 = _; rw [h.2.1]
   · rw [Address.toStr, B58.encode_eq, Address.asBytes_eq_blob H _ (fun _ => rfl), hspend]; rfl
 
+/-! ### canonical secret keys, `get_secret_keys`, `get_secret_scalar` -/
+
+/-- clause (c), "exactly the secret keys": the derived secret keys are REDUCED scalars (valid `PrivateKey`s), and so is the
+subaddress scalar `m` itself (`get_secret_scalar`) -/
+theorem C11_secret_reduced (L : Lawful ops) (v s : ℕ) (i j : ℕ) (hij : ¬ (i = 0 ∧ j = 0)) :
+    subScalar ops v i j < ops.l ∧ subSpendSec ops v s i j < ops.l ∧ subViewSec ops v s i j < ops.l := by
+  have h := C11_keys_are_monero L v s (0 : P) i j hij
+  refine ⟨Nat.mod_lt _ L.l_pos, ?_, ?_⟩
+  · rw [h.2.2.1]; exact Nat.mod_lt _ L.l_pos
+  · rw [h.2.2.2]; exact Nat.mod_lt _ L.l_pos
+
+/-- `get_secret_keys` returns the pair (view, spend) of the single-key functions, and it is the pair of secret keys of
+`get_public_keys`' pair (view, spend), in the same order -/
+theorem C11_secret_keys_pair (L : Lawful ops) (v s : ℕ) (S : P) (hS : S = s • ops.base) (i j : ℕ) :
+    subSecretKeys ops v s i j = (subViewSec ops v s i j, subSpendSec ops v s i j) ∧
+    (subSecretKeys ops v s i j).1 • ops.base = (subPublicKeys ops v S i j).1 ∧
+    (subSecretKeys ops v s i j).2 • ops.base = (subPublicKeys ops v S i j).2 := by
+  have h := C11_public_secret_agree L v s S hS i j
+  exact ⟨rfl, h.2.1.symm, by rw [h.2.2, h.1]; rfl⟩
+
+/-! ### distinct indices -/
+
+/-- hypotheses of `C11_distinct_keys_or_collision` about the indices are satisfiable (those about `ops` hold for Ed25519:
+`C11_distinct_keys_or_collision_ed25519`) -/
+example : (1 : ℕ) < 2 ^ 32 ∧ ((0 : ℕ), (1 : ℕ)) ≠ (1, 0) ∧ ¬ ((0 : ℕ) = 0 ∧ (1 : ℕ) = 0) := by decide
+
+/-- **clause (e), without an assumption on the hash**: for two DISTINCT 32-bit indices other than (0,0), the two hashed
+48-byte messages are distinct, and EITHER `Hs` collides on them (an explicit collision of Keccak-mod-l on two distinct
+48-byte strings) OR everything derived is distinct: the public spend keys, their 32-byte encodings, the secret spend keys,
+the address texts (every checksum function, every network), and — when the view secret is not 0 mod l — the public view
+keys. Needs: the base point has order exactly `l`, `l` prime, keys encode to 32 bytes. (`C11_distinct_keys_partial` assumed
+the non-collision on the hash VALUES and left the index hypothesis to the reader.) -/
+theorem C11_distinct_keys_or_collision (L : Lawful ops) (hord : ∀ k, k < ops.l → k • ops.base = 0 → k = 0)
+    (hp : Nat.Prime ops.l) (hlen : ∀ A : P, (ops.enc A).length = 32) (H : Bytes → Bytes) (v s : ℕ) (S : P)
+    (i j i' j' : ℕ) (hi : i < 2 ^ 32) (hj : j < 2 ^ 32) (hi' : i' < 2 ^ 32) (hj' : j' < 2 ^ 32)
+    (hne : (i, j) ≠ (i', j')) (hij : ¬ (i = 0 ∧ j = 0)) (hij' : ¬ (i' = 0 ∧ j' = 0)) (network : Option Net) :
+    subPreimage v i j ≠ subPreimage v i' j' ∧ (subPreimage v i j).length = 48 ∧ (subPreimage v i' j').length = 48 ∧
+    (hsOf ops (subPreimage v i j) = hsOf ops (subPreimage v i' j') ∨
+      (subSpendPub ops v S i j ≠ subSpendPub ops v S i' j' ∧
+       ops.enc (subSpendPub ops v S i j) ≠ ops.enc (subSpendPub ops v S i' j') ∧
+       subSpendSec ops v s i j ≠ subSpendSec ops v s i' j' ∧
+       Address.toStr H (getSubaddress ops v S i j network) ≠ Address.toStr H (getSubaddress ops v S i' j' network) ∧
+       (v % ops.l ≠ 0 → (subPublicKeys ops v S i j).1 ≠ (subPublicKeys ops v S i' j').1))) := by
+  have hpre : subPreimage v i j ≠ subPreimage v i' j' := fun h =>
+    hne (by have := subPreimage_injective hi hj hi' hj' h; rw [this.1, this.2])
+  refine ⟨hpre, (C11_preimage (ops := ops) v i j).2.2.2.1, (C11_preimage (ops := ops) v i' j').2.2.2.1, ?_⟩
+  by_cases hc : hsOf ops (subPreimage v i j) = hsOf ops (subPreimage v i' j')
+  · exact Or.inl hc
+  right
+  have hm := hsOf_lt ops L.l_pos (subPreimage v i j)
+  have hm' := hsOf_lt ops L.l_pos (subPreimage v i' j')
+  have e : ∀ T : P, subSpendPub ops v T i j = T + hsOf ops (subPreimage v i j) • ops.base ∧
+      subSpendPub ops v T i' j' = T + hsOf ops (subPreimage v i' j') • ops.base := by
+    intro T
+    have e1 := (C11_keys_are_monero L v 0 T i j hij).1
+    have e2 := (C11_keys_are_monero L v 0 T i' j' hij').1
+    rw [← subScalar_eq, subScalar_preimage] at e1 e2
+    exact ⟨e1, e2⟩
+  have hpub : ∀ T : P, subSpendPub ops v T i j ≠ subSpendPub ops v T i' j' := by
+    intro T h
+    rw [(e T).1, (e T).2] at h
+    exact hc (add_smul_base_inj hord T _ _ hm hm' h)
+  refine ⟨hpub S, fun h => hpub S (L.enc_inj h), ?_, ?_, ?_⟩
+  · intro h
+    apply hpub (s • ops.base)
+    rw [← L.subSpendSec_pub v s _ rfl i j, ← L.subSpendSec_pub v s _ rfl i' j', h]
+  · intro h
+    rw [(C11_address L H v S i j network).2.2.2.2.2.2.2.2, (C11_address L H v S i' j' network).2.2.2.2.2.2.2.2] at h
+    exact hpub S (L.enc_inj (text_spend_inj H _ _ _ _ _ _ _ _ (by rw [hlen, hlen]) (Option.some.inj h)))
+  · intro hv h
+    have v1 := (C11_keys_are_monero L v 0 S i j hij).2.1
+    have v2 := (C11_keys_are_monero L v 0 S i' j' hij').2.1
+    rw [v1, v2, ← subScalar_eq, ← subScalar_eq, subScalar_preimage, subScalar_preimage] at h
+    exact hc (smul_add_smul_base_inj L hord hp v hv S _ _ hm hm' h)
+
+/-- remark to clause (e): the public VIEW keys of a wallet whose view secret is 0 mod l all collide (they are the identity)
+— why the view-key conjunct above carries `v % l ≠ 0` -/
+theorem C11_view_keys_collide_when_view_zero (L : Lawful ops) (v s : ℕ) (S : P) (hS : S = s • ops.base)
+    (hv : v % ops.l = 0) (i j : ℕ) (hij : ¬ (i = 0 ∧ j = 0)) : (subPublicKeys ops v S i j).1 = 0 := by
+  rw [(C11_public_secret_agree L v s S hS i j).2.1, (C11_keys_are_monero L v s S i j hij).2.2.2, Nat.mul_mod, hv,
+    Nat.zero_mul, Nat.zero_mod, zero_smul]
+
 /-! ### Ed25519 itself: `Lawful` is a theorem, not an assumption
 
 `Proofs/EdwardsGroup.lean` proves that the affine twisted Edwards curve −x² + y² = 1 + d·x²·y² over GF(2^255 − 19) with the
@@ -209,5 +293,48 @@ theorem C11_public_secret_agree_ed25519 : type_of% (@C11_public_secret_agree EdP
   C11_public_secret_agree edOps_lawful
 theorem C11_zero_index_ed25519 : type_of% (@C11_zero_index EdPoint _ edOps edOps_lawful) := C11_zero_index edOps_lawful
 theorem C11_address_ed25519 : type_of% (@C11_address EdPoint _ edOps edOps_lawful) := C11_address edOps_lawful
+theorem C11_secret_reduced_ed25519 : type_of% (@C11_secret_reduced EdPoint _ edOps edOps_lawful) :=
+  C11_secret_reduced edOps_lawful
+theorem C11_secret_keys_pair_ed25519 : type_of% (@C11_secret_keys_pair EdPoint _ edOps edOps_lawful) :=
+  C11_secret_keys_pair edOps_lawful
+theorem C11_single_zero_component_is_not_zero_ed25519 :
+    type_of% (@C11_single_zero_component_is_not_zero EdPoint _ edOps edOps_lawful) :=
+  C11_single_zero_component_is_not_zero edOps_lawful
+
+/-- **clause (e) on Ed25519**: the three hypotheses about the group are theorems there (the base point has order exactly the
+prime `l`: `addOrderOf_base`, `Primes.prime_l`; encodings are 32 bytes). What remains is the disjunction itself: distinct
+keys, secrets and address texts — or an explicit collision of `Hs` on two distinct 48-byte messages. -/
+theorem C11_distinct_keys_or_collision_ed25519 (H : Bytes → Bytes) (v s : ℕ) (S : EdPoint)
+    (i j i' j' : ℕ) (hi : i < 2 ^ 32) (hj : j < 2 ^ 32) (hi' : i' < 2 ^ 32) (hj' : j' < 2 ^ 32)
+    (hne : (i, j) ≠ (i', j')) (hij : ¬ (i = 0 ∧ j = 0)) (hij' : ¬ (i' = 0 ∧ j' = 0)) (network : Option Net) :
+    subPreimage v i j ≠ subPreimage v i' j' ∧ (subPreimage v i j).length = 48 ∧ (subPreimage v i' j').length = 48 ∧
+    (hsOf edOps (subPreimage v i j) = hsOf edOps (subPreimage v i' j') ∨
+      (subSpendPub edOps v S i j ≠ subSpendPub edOps v S i' j' ∧
+       edOps.enc (subSpendPub edOps v S i j) ≠ edOps.enc (subSpendPub edOps v S i' j') ∧
+       subSpendSec edOps v s i j ≠ subSpendSec edOps v s i' j' ∧
+       Address.toStr H (getSubaddress edOps v S i j network) ≠ Address.toStr H (getSubaddress edOps v S i' j' network) ∧
+       (v % edOps.l ≠ 0 → (subPublicKeys edOps v S i j).1 ≠ (subPublicKeys edOps v S i' j').1))) := by
+  refine C11_distinct_keys_or_collision edOps_lawful ?_ ?_ ?_ H v s S i j i' j' hi hj hi' hj' hne hij hij' network
+  · intro k hk h0
+    have hd : Ed.l ∣ k := by rw [← addOrderOf_base]; exact addOrderOf_dvd_of_nsmul_eq_zero h0
+    exact Nat.eq_zero_of_dvd_of_lt hd hk
+  · rw [edOps_l]; exact factPrimeL.out
+  · intro A; rw [edOps_enc]; exact encodePt_length _
+theorem C11_view_keys_collide_when_view_zero_ed25519 :
+    type_of% (@C11_view_keys_collide_when_view_zero EdPoint _ edOps edOps_lawful) :=
+  C11_view_keys_collide_when_view_zero edOps_lawful
+
+/-- **the driver's keys are the theorems' keys**: on a valid representative `S` of a spend key, the executable instance
+`Drv.refOps` (what `c11_sub_pub` / `c11_sub_sec` / `c11_scalar` print on the model side) computes the subaddress scalar, the
+secret keys and the encoding of the public spend key of the lawful instance `edOps` -/
+theorem C11_driver_refines (v s : ℕ) (S : Ed.Pt) (hS : Valid S) (i j : ℕ) :
+    subScalar Drv.refOps v i j = subScalar edOps v i j ∧
+    subSpendSec Drv.refOps v s i j = subSpendSec edOps v s i j ∧
+    subViewSec Drv.refOps v s i j = subViewSec edOps v s i j ∧
+    Drv.refOps.enc (subSpendPub Drv.refOps v S i j) = edOps.enc (subSpendPub edOps v (toPoint S hS) i j) := by
+  refine ⟨refines_subScalar refOps_refines_edOps v i j, refines_subSpendSec refOps_refines_edOps v s i j,
+    refines_subViewSec refOps_refines_edOps v s i j, ?_⟩
+  obtain ⟨h, e⟩ := refines_subSpendPub refOps_refines_edOps v S hS i j
+  rw [refOps_refines_edOps.enc _ h, e]
 end Ed25519
 end C11
